@@ -41,7 +41,16 @@ def subchecks(tier):
     region = system_subcheck("sched_blocked", common.region_profile("C01"), lambda spec: [Conservation()],
                              lambda a, spec, res: a.get("rec_interrupted_service", 0) >= 1 and a.get("blocked_records", 0) >= 1, classes=classes,
                              n={"quick": 3600, "thorough": 30000}, rule="pre-emptive schedules x blocking region (heavy load, grid times); same monitor")
-    return [base, region, reused_subcheck(), fuzz_subcheck(base, tier)]
+    from .. import strategies as S
+    wj = {"reneging": 1.0, "jockeying": 1.0, "priorities": 1.0, "prio_preempt": 1.0, "prio_reroute": 1.0, "routing_objects": 1.0, "capacity": 0.5, "batching": 0.4,
+          "self_loops": 0.5, "discipline": 0.2, "zero_service": 0.2, "cc_waiting": 0.2}
+    jr = S.Profile(list(wj), weights=wj, required=("reneging", "jockeying", "priorities", "prio_preempt", "prio_reroute", "routing_objects"), numeric="grid", max_nodes=3,
+                   max_classes=3, plans=("max_time",), horizon=(8.0, 20.0), budget=600, caps=(0, 1, 2), load="heavy", max_c=2)
+    jockey = system_subcheck("jockey_reroute", jr, lambda spec: [Conservation()], lambda a, spec, res: a.get("rec_renege", 0) >= 1 and a.get("rec_interrupted_service", 0) >= 1,
+                             classes=classes, n={"quick": 3600, "thorough": 20000},
+                             rule="reneging customers that jockey to nodes with 're-route' pre-emption: one event can move a customer out of a node, pre-empt somebody at "
+                                  "its new node and send that one back; same conservation monitor")
+    return [base, region, jockey, reused_subcheck(), fuzz_subcheck(base, tier)]
 
 
 def reused_subcheck():
